@@ -76,6 +76,8 @@ def run_shard(shard, tier, seed):
 
 
 def replay(case):
+    if case[0] == 'enc':
+        return C.replay_enc(ID, case)
     res = H.Result(ID)
     _, T, v, defMode, chunk = case
     check_case(res, T, v, [(defMode, chunk)])
